@@ -120,6 +120,7 @@ type Mem struct {
 
 	mu       sync.Mutex
 	sessions map[string]*memSession
+	ended    map[string]*memSession
 	vouchers map[protocol.GUID][]byte
 	rvBlobs  map[protocol.GUID]rvEntry
 	mfgKeys  map[keyID]keyEntry
@@ -184,8 +185,16 @@ func (m *Mem) TokenFromContext(ctx context.Context) (string, bool) {
 func (m *Mem) InvalidateToken(ctx context.Context) error {
 	tok, _ := m.TokenFromContext(ctx)
 	m.mu.Lock()
-	_, ok := m.sessions[tok]
+	old, ok := m.sessions[tok]
 	delete(m.sessions, tok)
+	if ok {
+		// harness only: keep the keys of an ended session so that a man in the
+		// middle can still open/forge the final response (TO2.Done2)
+		if m.ended == nil {
+			m.ended = map[string]*memSession{}
+		}
+		m.ended[tok] = old
+	}
 	m.mu.Unlock()
 	if !ok {
 		return fdo.ErrNotFound
@@ -642,6 +651,9 @@ func (m *Mem) OwnerKey(ctx context.Context, typ protocol.KeyType, bits int) (cry
 func (m *Mem) SessionCrypter(token string) (*kex.SessionCrypter, bool) {
 	m.mu.Lock()
 	s, ok := m.sessions[token]
+	if !ok {
+		s, ok = m.ended[token]
+	}
 	var suite kex.Suite
 	var b []byte
 	if ok {
